@@ -13,7 +13,7 @@ BAD_CHAR_PREDICATES = ("is_numeric", "is_alphanumeric", "is_alphabetic", "is_dig
 def run(chk, tier):
     P = Prog("default")
     chk.configs.add("default")
-    for r in (r_reader_shape, r_offset_bound, r_entry, r_writer, r_ascii, r_absint):
+    for r in (r_reader_shape, r_offset_bound, r_entry, r_writer, r_ascii, r_absint, r_flow):
         chk.guarded(r, P, tier)
     chk.assume("that the accepted language equals the RFC 3339 grammar for every string, the values returned and the round trip are NOT decided; the grammar side is specs (appendix A.5)")
     return {
@@ -191,3 +191,16 @@ def r_absint(chk, P, tier):
     e1.report(chk, P, res, "ABSINT.rfc3339", "reader, scanners and writer of RFC 3339 are free of panics and lossy casts (discharged or justified)",
               fn_filter=lambda fn: fn.split("::{")[0] in (PR, WR, "format::scan::number", "format::scan::char", "format::scan::nanosecond", "format::scan::timezone_offset",
                                                           "format::formatting::write_hundreds", "format::formatting::<impl format::OffsetFormat>::format"), floor=25)
+
+
+def r_flow(chk, P, tier):
+    """no scanned field is dropped: the value of every value-returning scan call reaches a Parsed setter on every successful path"""
+    from fmt_tables import scanned_value_flow
+    chk.rule("FLOW.scanned", "every value a format::scan function returned Ok for is handed to a Parsed setter on each successful path (no scanned field is silently dropped)", floor=9)
+    for fn in ('format::parse::parse_rfc3339', 'format::parse::parse_rfc3339_relaxed'):
+        rows = scanned_value_flow(P, fn)
+        if not rows:
+            raise AnchorLost("no value-returning scan call found in " + fn)
+        for name, ln, ok, dropped in rows:
+            chk.expect(dropped == 0 and ok > 0, "%s: %s #%d" % (fn.split("::")[-1], name, [r_ for r_ in rows if r_[0] == name].index((name, ln, ok, dropped)) + 1),
+                       "the value scanned by scan::%s (line %s) does not reach a Parsed setter on %d of %d successful paths" % (name, ln, dropped, ok + dropped), loc=P.loc(fn, ln))
